@@ -57,7 +57,7 @@ for mid in ids:
     finally:
         sh(f"git -C /repo worktree remove --force {scratch}/wt")
         shutil.rmtree(scratch, ignore_errors=True)
-        shutil.rmtree("/tmp/verif-scratch-replays", ignore_errors=True)
+        shutil.rmtree("/tmp/verif-scratch-replays" if "--all-props" in sys.argv else f"/tmp/verif-scratch-replays/{prop}", ignore_errors=True)
     json.dump(res, open(os.path.join(d, "validation.json"), "w"), indent=1)
     print(mid, "applies" if res.get("applies") else "PATCH-FAILS", res.get("suite_passes"), "demo:", res.get("demo_fails_with_change"), res.get("demo_passes_without"),
           "caught_by:", res.get("caught_by"), flush=True)
